@@ -234,7 +234,13 @@ def binding_matches(world: Dict[str, Any], obj: Optional[model.Documentable], b:
     if obj is None:
         return None
     if b[0] == 'd':
-        return (not isinstance(obj, model.Module)) and marker_of(obj) == b[1]
+        if isinstance(obj, model.Module):
+            return False
+        m = marker_of(obj)
+        if m is None:
+            # an undocumented member carries no marker: identify it through its parent's marker and its name
+            m = marker_of_member(obj, world['truth']['defs'])
+        return m == b[1]
     mid = world['modules'][b[1]]['mid']
     return isinstance(obj, model.Module) and marker_of(obj) == mid
 
@@ -558,6 +564,11 @@ def check_reexports(world: Dict[str, Any], system: Any) -> List[Viol]:
             continue
         if want is not None and got != want:
             out.append((f'wrong-location,{tag}', f'M{i} documented at {got!r}, expected {want!r} (re-exporters {truth["reexporters"].get(str(top))})'))
+        if moved and d['outer'] is None and want is not None and got == want:
+            # "documented under the re-exporting module": it must be that module's entry for the exported name
+            rmod = system.allobjects.get(truth['loc'][str(top)][0])
+            if rmod is not None and rmod.contents.get(truth['loc'][str(top)][1]) is not objs[0]:
+                out.append((f'not-in-reexporter-contents,{tag}', f'M{i} is registered as {got!r} but is not contents[{truth["loc"][str(top)][1]!r}] of {rmod!r}: it would be listed on no page'))
         if moved and d['outer'] is None:
             old = f'{d["module"]}.{d["name"]}'
             if want != old and old in system.allobjects:
@@ -762,4 +773,48 @@ def _check_links(world: Dict[str, Any], system: Any, bym: Dict[int, List[Any]]) 
                         if not ok:
                             seen_sigs.add(sig)
                             out.append((sig, f'annotation {name!r} on {funcs[0].fullName()} links to {href!r}, expected {want!r} (M{i})'))
+    return out
+
+
+def check_class_attr_paths(world: Dict[str, Any], system: Any) -> List[Viol]:
+    """C04, dotted names through a class: ``K.n`` denotes what attribute lookup along K's MRO finds - the binding of
+    ``n`` in the first class of the linearisation whose body binds it (definition, import or alias in the class
+    body).  Whenever pydoctor resolves ``K.n`` from the module that defines K it must be that object; own and
+    inherited *members* must resolve."""
+    out: List[Viol] = []
+    truth = world['truth']
+    defs = truth['defs']
+    bym = by_marker(system)
+    memo: Dict[int, Any] = {}
+    idx = _class_index(world)
+    for cid, (modname, st) in idx.items():
+        if defs[str(cid)].get('outer') is not None:
+            continue
+        if not _judgeable(world, cid):
+            continue
+        lin = ref_mro(world, cid, memo)
+        if lin is None:
+            continue
+        scope_obj = system.allobjects.get(modname)
+        objs = bym.get(cid, [])
+        if not isinstance(scope_obj, model.Module) or len(objs) != 1:
+            continue
+        if truth['reexporters'].get(str(cid)):
+            continue      # the class was moved: its defining module no longer holds the name locally
+        names: Dict[str, List[Any]] = {}
+        for c in lin:
+            for n, b in truth['cns'].get(str(c), {}).items():
+                names.setdefault(n, b)
+        kname = defs[str(cid)]['name']
+        for n, b in sorted(names.items()):
+            got = scope_obj.resolveName(f'{kname}.{n}')
+            ok = binding_matches(world, got, b)
+            if ok is False:
+                inherited = int(n not in truth['cns'].get(str(cid), {}))
+                out.append((f'wrong-object,route=class-attribute,inherited={inherited},kind={b[0]}',
+                            f'in {modname}, {kname}.{n} resolves to {got!r}; attribute lookup along the MRO {lin} binds {b}'))
+            elif ok is None and b[0] == 'd' and defs[str(b[1])].get('outer') in lin and not defs[str(b[1])].get('nodoc') \
+                    and defs[str(b[1])]['kind'] not in ('ivar', 'field'):
+                out.append((f'unresolved,route=class-attribute,inherited={int(defs[str(b[1])]["outer"] != cid)}',
+                            f'in {modname}, member {kname}.{n} (M{b[1]}) does not resolve'))
     return out
